@@ -6,7 +6,7 @@
    (vlib/props/C20.py). Boxing: see the theorems merged below from Proofs/BoxingProofs.v. *)
 From Coq Require Import List NArith.
 From PT Require Import Model.Base Model.Stack Model.Texpr Model.Sem Model.Ast Model.Translate Model.PegSpec Model.GenEnv.
-From PT Require Import Proofs.OptionsProofs.
+From PT Require Import Model.Boxing Proofs.OptionsProofs Proofs.BoxingProofs.
 Import ListNotations.
 
 (* pest_optimizer: where the un-optimized expression is the optimized one read back (the optimizer only added
@@ -26,3 +26,47 @@ Theorem C20_refuted_skip :
    | POk p _ _ => p = 3 | _ => False end).
 Proof. exact optimizer_changes_offset. Qed.
 Print Assumptions C20_refuted_skip.
+
+(* ---- box_only_if_needed: "recursive grammars still compile when boxing is reduced" ------------------------
+   Model/Boxing.v transcribes collect_reachability / not_boxed (generator/src/graph.rs) and collect_used_rule;
+   V1 compares its flags with the `boxed` argument of every rule! the REAL generator emits (vlib/props/C20.py).
+   A struct type is finite iff no cycle of "stores inline" runs through unboxed rule structs only. *)
+
+(* soundness, for every rule list: no cycle of the mention graph runs through unboxed rules only -- in
+   particular the cap of `rules.len()` rounds never stops the analysis too early *)
+Theorem C20_boxing_sound : forall ws cm rules x l,
+  (forall z, In z (x :: l) -> is_boxed true ws cm rules z = false) ->
+  ~ chain (mention_edge ws cm rules) x l x.
+Proof. exact boxing_sound. Qed.
+Print Assumptions C20_boxing_sound.
+
+(* a rule on no cycle of the full mention graph is never boxed (the option does reduce boxing) *)
+Theorem C20_boxing_minimal : forall ws cm rules r,
+  In r rules ->
+  (forall l, ~ chain (mention_edge ws cm rules) (b_name r) l (b_name r)) ->
+  is_boxed true ws cm rules (b_name r) = false.
+Proof. exact boxing_minimal. Qed.
+Print Assumptions C20_boxing_minimal.
+
+(* what every remaining entry of the reachability map holds *)
+Theorem C20_boxing_invariant : forall ws cm rules x s,
+  mlookup x (collect_reachability ws cm rules) = Some s ->
+  In x (map b_name rules) /\ NoDup s /\ ~ In x s /\
+  (forall y, In y s -> exists l, chain (mention_edge ws cm rules) x l y) /\
+  (forall l y, chain (mention_edge ws cm rules) x l y ->
+     (forall z, In z l -> In z (not_boxed ws cm rules)) -> In y s).
+Proof. exact boxing_invariant. Qed.
+Print Assumptions C20_boxing_invariant.
+
+(* without the option every rule is boxed *)
+Theorem C20_boxing_off : forall ws cm rules, boxed_flags false ws cm rules = map (fun _ => true) rules.
+Proof. exact boxing_off. Qed.
+Print Assumptions C20_boxing_off.
+
+(* non-vacuity: the generator's own unit-test graph (a -> b -> c -> a): b stays unboxed, the cycle exists *)
+Theorem C20_boxing_example :
+  boxed_flags true None None inter_reference_rules = [true; false; true] /\
+  boxed_flags false None None inter_reference_rules = [true; true; true] /\
+  last_round_made_no_update None None inter_reference_rules = true.
+Proof. exact inter_reference_flags. Qed.
+Print Assumptions C20_boxing_example.
